@@ -123,6 +123,16 @@ class DownloadOutputManager:
             },
         )
 
+    def get_io_write_tasks(self, fileobj, data, offset):
+        """Get the IO write tasks to run for the requested set of data
+
+        Unlike ``queue_file_io_task()`` the returned tasks are meant to be
+        run immediately by the caller, in the order returned.
+
+        :returns: A list of IO tasks (can be empty) to write the data
+        """
+        return [self.get_io_write_task(fileobj, data, offset)]
+
     def get_final_io_task(self):
         """Get the final io task to complete the download
 
@@ -239,6 +249,18 @@ class DownloadNonSeekableOutputManager(DownloadOutputManager):
                     fileobj,
                 )
                 super().queue_file_io_task(fileobj, data, offset)
+
+    def get_io_write_tasks(self, fileobj, data, offset):
+        # A stream cannot be rewound: when a GetObject is retried it starts
+        # over, so only hand out the data that has not been written yet.
+        with self._io_submit_lock:
+            writes = self._defer_queue.request_writes(offset, data)
+        tasks = []
+        for write in writes:
+            tasks.append(
+                self.get_io_write_task(fileobj, write['data'], write['offset'])
+            )
+        return tasks
 
     def get_io_write_task(self, fileobj, data, offset):
         return IOStreamingWriteTask(
@@ -625,8 +647,11 @@ class ImmediatelyWriteIOGetObjectTask(GetObjectTask):
     """
 
     def _handle_io(self, download_output_manager, fileobj, chunk, index):
-        task = download_output_manager.get_io_write_task(fileobj, chunk, index)
-        task()
+        tasks = download_output_manager.get_io_write_tasks(
+            fileobj, chunk, index
+        )
+        for task in tasks:
+            task()
 
 
 class IOWriteTask(Task):
